@@ -12,8 +12,8 @@ Transition system: an arbitrary (unbounded) table of processes, each a small aut
     created --check2fail--> stopping                           (second check found a conflicting lock)
     any --crash--> dead                                        (lock files stay behind)
     holding --expire--> stale0                                 (monitor forces a refresh: backend frozen)
-    stale0 --srCheck1--> stale1 --srCreate--> stale2 --srAdopt--> holding     (refreshStaleLock: old file
-           exists, write replacement, old file still exists, adopt = remove old)
+    stale0 --srCheck1--> stale1 --srCreate--> stale2 --srCheck2--> stale3 --srAdopt--> holding
+           (refreshStaleLock: old file exists, write replacement, old file still exists, adopt = remove old)
     stale0/1/2 --srFail--> stopping                            (old file gone / error: cleanup replacement, cancel)
 
 plus a remover (`restic unlock`) deleting files it judges stale (`removeStale`: older than
@@ -37,7 +37,7 @@ namespace Restic.Model.Lock
 
 inductive PC where
   | idle | checked1 | created | holding | refreshing | stopping | released | dead
-  | stale0 | stale1 | stale2
+  | stale0 | stale1 | stale2 | stale3
 deriving DecidableEq, Repr, Inhabited
 
 structure Proc where
@@ -69,7 +69,7 @@ deriving DecidableEq, Repr
 inductive LAct where
   | check1 | check1fail | abort | create | check2ok | check2fail
   | refreshCreate | refreshRemove | giveUp | cleanup | crash
-  | expire | srCheck1 | srCreate | srAdopt | srFail | srFailKeep
+  | expire | srCheck1 | srCreate | srCheck2 | srAdopt | srFail | srFailKeep
   | removeStale (second : Bool)
   | removeDead (second : Bool)
 deriving DecidableEq, Repr
@@ -115,12 +115,15 @@ def localStep (P : Params) (now : Nat) (clear : Bool) (p : Proc) : LAct → Opti
   | .expire => if p.pc = .holding then some { p with pc := .stale0 } else none
   | .srCheck1 => if p.pc = .stale0 ∧ p.f1.isSome = true then some { p with pc := .stale1 } else none
   | .srCreate => if p.pc = .stale1 then some { p with pc := .stale2, t := now, f2 := some now } else none
-  | .srAdopt => if p.pc = .stale2 ∧ p.f1.isSome = true then some { p with pc := .holding, f1 := p.f2, f2 := none } else none
+  -- second existence check (after the replacement is stored): the old file must still be there
+  | .srCheck2 => if p.pc = .stale2 ∧ p.f1.isSome = true then some { p with pc := .stale3 } else none
+  -- adoption: `lockID` points to the replacement, the old file is removed (whether or not it is still there)
+  | .srAdopt => if p.pc = .stale3 then some { p with pc := .holding, f1 := p.f2, f2 := none } else none
   | .srFail =>
     if p.pc = .stale0 ∨ p.pc = .stale1 ∨ p.pc = .stale2 then some { p with pc := .stopping, f2 := none } else none
   -- adoption attempted (`lockID` already points to the replacement) but removing the old file failed:
   -- error, the replacement stays until unlock removes it
-  | .srFailKeep => if p.pc = .stale2 then some { p with pc := .stopping, f1 := p.f2, f2 := none } else none
+  | .srFailKeep => if p.pc = .stale3 then some { p with pc := .stopping, f1 := p.f2, f2 := none } else none
   | .removeStale k =>
     match getFile p k with
     | some b => if canJudgeStale P now b then some (clearFile p k) else none
@@ -130,7 +133,8 @@ def localStep (P : Params) (now : Nat) (clear : Bool) (p : Proc) : LAct → Opti
 /-- must act before real time passes: between create and re-check, while believing to hold, and
     between writing the replacement of a forced refresh and adopting it. A process in `stale0`/`stale1`
     (backend frozen, lock possibly long expired) is not urgent: it may be arbitrarily late. -/
-def urgent (p : Proc) : Bool := p.pc == .created || p.pc == .holding || p.pc == .refreshing || p.pc == .stale2
+def urgent (p : Proc) : Bool :=
+  p.pc == .created || p.pc == .holding || p.pc == .refreshing || p.pc == .stale2 || p.pc == .stale3
 
 def step (P : Params) (s : Sys) : Act → Option Sys
   | .proc i a =>
